@@ -5,7 +5,7 @@ patch=$1; prop=$2; tier=${3:-quick}
 cd /repo || exit 2
 if ! git diff --quiet; then echo "repo dirty"; exit 2; fi
 if ! git apply "$patch"; then echo "PATCH DOES NOT APPLY"; exit 3; fi
-( cd /verif && VERIF_SEED=${VERIF_SEED:-1} python3 run/check.py "$prop" --tier "$tier" 2>&1 | grep -v "^KNOWN-FINDING" | cut -c1-700 | tail -${TAILN:-8} )
+( cd /verif && VERIF_EVIDENCE_DIR=/var/tmp/verif-evidence-scratch VERIF_SEED=${VERIF_SEED:-1} python3 run/check.py "$prop" --tier "$tier" 2>&1 | grep -v "^KNOWN-FINDING" | cut -c1-700 | tail -${TAILN:-8} )
 rc=${PIPESTATUS[0]}
 git -C /repo checkout -- . && git -C /repo clean -fdq
 exit 0
